@@ -92,6 +92,10 @@ class Screen608:
         self.last_code = None
         return
       self.last_code = (w, frame)
+      if b1 in (0x15, 0x1d) and 0x20 <= b2 <= 0x2f:
+        # miscellaneous control codes of the second field (CC3 / CC4): another channel takes over
+        self.ch = 3
+        return
       ch = 2 if (b1 & 0x08) else 1
       self.ch = ch
       if ch != 1:
